@@ -310,6 +310,9 @@ def make(n, kinds, jobs_hi, sigterm_bit=True, orders="rev"):
                 g.goal("signal with one task in flight")
             if where == "blocked-read":
                 g.goal("signal while blocked waiting for a child")
+            if not running_at and bad and kern.tasks() and all(p.t_exit is not None and p.t_exit <= t_inj for p in kern.tasks()) \
+                    and "propagating" in where:
+                g.goal("signal while the failure of a task is being reported")
             if "planner" in where:
                 g.goal("signal during planning")
             if "finish_execution" in where:
@@ -361,6 +364,7 @@ def spaces(tier):
                 outside=["N>3", "jobs>2", "bytecode granularity", "points inside library calls"]),
           Space("chain2-seq-fail", make(2, ("run_experiment",), 1, sigterm_bit=True),
                 "2 sequential experiments t0 <- t1, t0 may fail, SIGINT or SIGTERM at every point", depth="marker",
+                goals=["signal while the failure of a task is being reported"],
                 preset={"e0_1": True, "p0": False, "p1": False, "bad1": False})]
     sp.append(Space("par4-j3", make(4, ("run_experiment", "run_command"), 3, sigterm_bit=False),
                     "4 tasks: t0, t1, t2 independent and parallelizable (command, experiment, command), t3 (experiment) depends on all "
